@@ -218,7 +218,8 @@ func (v *vsEnv) eval(x *sx) (vsVal, error) {
 //	call hook "call:<function>": arg0..argN (integer arguments), ret (if any),
 //	  (pre-le N ARG OFF) / (post-le N ARG OFF): N bytes little-endian at pointer
 //	  argument ARG + OFF before / after the call, (helper-ret NAME K): result of
-//	  the K-th call of helper NAME made inside the call
+//	  the K-th call of helper NAME made inside the call, (ctx FIELD): 32-bit context field
+//	  (probed offset) before the call
 type hookCtx struct {
 	outArr    smt.Term
 	outMem    *RegMem // exit hooks: the packet memory (overlay of bytes at concrete offsets over a base array)
@@ -654,6 +655,23 @@ func (v *vsEnv) evalBV(x *sx) (vsVal, error) {
 			return vsVal{}, v.errf(x, "%v", err)
 		}
 		return mkv(v.e.bitsOf(val), int(8*n)), nil
+	case "ctx":
+		// (ctx FIELD): the 32-bit context field FIELD (e.g. len of struct __sk_buff) as the call finds it
+		if v.hook == nil || v.hook.pre == nil {
+			return vsVal{}, v.errf(x, "ctx is only available in call specifications")
+		}
+		if err := need(1); err != nil {
+			return vsVal{}, err
+		}
+		fo, ok := v.e.mod.CtxOff[v.e.ctxStruct+"."+args[0].atom]
+		if !ok {
+			return vsVal{}, v.errf(x, "no probed offset for context field %s.%s", v.e.ctxStruct, args[0].atom)
+		}
+		cv, err := v.e.loadMem(v.hook.pre, v.e.ptrTo(v.e.regions[ridCtx], fo).P, 4)
+		if err != nil {
+			return vsVal{}, v.errf(x, "%v", err)
+		}
+		return mkv(v.e.bitsOf(cv), 32), nil
 	case "helper-ret":
 		if v.hook == nil {
 			return vsVal{}, v.errf(x, "helper-ret is only available in call specifications")
